@@ -1,6 +1,7 @@
 package main
 
 import (
+	"sort"
 	"fmt"
 	"go/token"
 	"go/types"
@@ -729,6 +730,29 @@ func c02closeCodes(p *Program, r *Report, rule string) {
 		return
 	}
 	cands := candidates(intConstsCompared(fn), 0, 999, 1000, 1003, 1004, 1005, 1006, 1007, 1014, 1015, 1016, 2999, 3000, 4999, 5000, 65535, 65536, -1)
+	// every code of the first block exhaustively (a set or table lookup has no comparison constants to cut the line at),
+	// and representatives that alias an accepted code when a narrower integer or an index is computed from the code:
+	// v ± 256, v ± 65536, v + 2^32 for accepted v, plus multiples of the block sizes
+	seen := map[int64]bool{}
+	for _, c := range cands {
+		seen[c] = true
+	}
+	add := func(c int64) {
+		if !seen[c] {
+			seen[c] = true
+			cands = append(cands, c)
+		}
+	}
+	for c := int64(990); c <= 1030; c++ {
+		add(c)
+	}
+	for _, v := range []int64{1000, 1001, 1003, 1007, 1011, 1014, 3000, 4000, 4999} {
+		for _, d := range []int64{256, 512, 1024, 2048, 4096, 65536, 1 << 32} {
+			add(v + d)
+			add(v - d)
+		}
+	}
+	sort.Slice(cands, func(i, j int) bool { return cands[i] < cands[j] })
 	p.runTable(r, tableSpec{
 		Rule: rule, Fn: fn, Atoms: []Atom{intAtom("param:code", cands)},
 		Classify: func(v Valuation, pa *Path) string {
@@ -872,18 +896,20 @@ func c03taint(p *Program, r *Report, rule string) {
 	// call sites, a tainted integer argument taints the callee's parameter (fixpoint).
 	taintedRet := map[*ssa.Function]map[int]bool{}
 	taintedParam := map[*ssa.Parameter]bool{}
+	// an integer field that is assigned a wire length anywhere (a size hint remembered for later) carries it
+	taintedField := map[*types.Var]bool{}
 	var tainted func(v ssa.Value) bool
 	tainted = func(v ssa.Value) bool {
 		return valueDerives(v, func(x ssa.Value) bool {
 			switch y := x.(type) {
 			case *ssa.UnOp:
 				if y.Op == token.MUL {
-					if fa, ok := y.X.(*ssa.FieldAddr); ok && (fieldOf(fa) == hpl || fieldOf(fa) == mpl) {
+					if fa, ok := y.X.(*ssa.FieldAddr); ok && (fieldOf(fa) == hpl || fieldOf(fa) == mpl || taintedField[fieldOf(fa)]) {
 						return true
 					}
 				}
 			case *ssa.Field:
-				return fieldOf(y) == hpl
+				return fieldOf(y) == hpl || taintedField[fieldOf(y)]
 			case *ssa.Parameter:
 				return taintedParam[y]
 			case *ssa.Call:
@@ -910,6 +936,13 @@ func c03taint(p *Program, r *Report, rule string) {
 			for _, b := range fn.Blocks {
 				for _, in := range b.Instrs {
 					switch x := in.(type) {
+					case *ssa.Store:
+						if fa, ok := x.Addr.(*ssa.FieldAddr); ok && isInt(x.Val.Type()) {
+							if f := fieldOf(fa); f != nil && f != hpl && f != mpl && !taintedField[f] && !isFrameStateField(p, f) && tainted(x.Val) {
+								taintedField[f] = true
+								changed = true
+							}
+						}
 					case *ssa.Return:
 						for i, res := range x.Results {
 							if isInt(res.Type()) && !taintedRet[fn][i] && tainted(res) {
@@ -979,6 +1012,17 @@ func c03taint(p *Program, r *Report, rule string) {
 			}
 		}
 	}
+}
+
+// isFrameStateField: the reader's own bookkeeping of the frame position (limitReader.n is a budget, not a wire length;
+// header.payloadLength and msgReader.payloadLength are the roots themselves).
+func isFrameStateField(p *Program, f *types.Var) bool {
+	for _, n := range []string{"limitReader.n", "header.payloadLength", "msgReader.payloadLength"} {
+		if p.FieldOpt(n) == f {
+			return true
+		}
+	}
+	return false
 }
 
 func sliceBaseName(x *ssa.Slice) string {
